@@ -38,6 +38,8 @@ type item struct {
 	text       string
 	wellFormed bool
 	prefix     netip.Prefix // valid when wellFormed
+	// allow= and deny= together: which of the two lists the item is in
+	inAllow, inDeny bool
 }
 
 func normAddr(a netip.Addr) netip.Addr { return a.Unmap().WithZone("") }
@@ -100,6 +102,20 @@ func refDecision(kind string, items []item, addrs []netip.Addr) verdict {
 		}
 		return unspecified
 	case "both": // allow= and deny= on one route: not supported, must not widen either list
+		var al, dn []netip.Prefix
+		for _, it := range items {
+			if it.wellFormed && it.inAllow {
+				al = append(al, it.prefix)
+			}
+			if it.wellFormed && it.inDeny {
+				dn = append(dn, it.prefix)
+			}
+		}
+		for _, a := range addrs {
+			if !inAny(a, al) || inAny(a, dn) {
+				return mustDeny
+			}
+		}
 		return unspecified
 	}
 	return mustAdmit
@@ -165,6 +181,9 @@ func genRule(t *rapid.T, allowSpaces bool) (kind string, items []item, opts map[
 		k := rapid.IntRange(1, len(texts)).Draw(t, "splitat")
 		opts["allow"] = strings.Join(texts[:k], ",")
 		opts["deny"] = strings.Join(texts[k-1:], ",")
+		for i := range items {
+			items[i].inAllow, items[i].inDeny = i < k, i >= k-1
+		}
 	default:
 		opts[kind] = strings.Join(texts, ",")
 	}
@@ -258,64 +277,73 @@ func TestC12AccessRulesHTTP(t *testing.T) {
 		if peer.Is6() && !peer.Is4In6() && rapid.IntRange(0, 3).Draw(t, "zoned") == 0 {
 			zone = rapid.SampledFrom([]string{"eth0", "1", "lo"}).Draw(t, "zone")
 		}
-		addrs := []netip.Addr{peer}
-		var xff []string
-		for i, n := 0, rapid.IntRange(0, 4).Draw(t, "nxff"); i < n; i++ {
-			switch rapid.IntRange(0, 5).Draw(t, "xffkind") {
-			case 0:
-				xff = append(xff, rapid.SampledFrom([]string{"garbage", "unknown", "", "1.2.3", "_hidden"}).Draw(t, "xffjunk"))
-			case 1:
-				xff = append(xff, peer.String())
-			default:
-				a := genAddr(t, items, "xff")
-				addrs = append(addrs, a)
-				s := a.String()
-				if rapid.IntRange(0, 3).Draw(t, "xffspace") == 0 {
-					s = "  " + s + " "
+		port := rapid.IntRange(1, 65535).Draw(t, "port")
+		// 1-3 requests from the same peer on the same target, each with its own
+		// X-Forwarded-For chain: the decision belongs to the request
+		rounds := rapid.SampledFrom([]int{1, 1, 2, 3}).Draw(t, "requests")
+		var addrs []netip.Addr
+		var desc string
+		var lastCode int
+		for round := 0; round < rounds; round++ {
+			addrs = []netip.Addr{peer}
+			var xff []string
+			for i, n := 0, rapid.IntRange(0, 4).Draw(t, "nxff"); i < n; i++ {
+				switch rapid.IntRange(0, 5).Draw(t, "xffkind") {
+				case 0:
+					xff = append(xff, rapid.SampledFrom([]string{"garbage", "unknown", "", "1.2.3", "_hidden"}).Draw(t, "xffjunk"))
+				case 1:
+					xff = append(xff, peer.String())
+				default:
+					a := genAddr(t, items, "xff")
+					addrs = append(addrs, a)
+					s := a.String()
+					if rapid.IntRange(0, 3).Draw(t, "xffspace") == 0 {
+						s = "  " + s + " "
+					}
+					xff = append(xff, s)
 				}
-				xff = append(xff, s)
 			}
-		}
-		rt := &countingRT{}
-		p := &proxy.HTTPProxy{
-			Config:    config.Proxy{},
-			Transport: rt,
-			Lookup:    func(*http.Request) *route.Target { return tg },
-		}
-		req := httptest.NewRequest("GET", "http://example.com/x", nil)
-		req.RemoteAddr = remoteAddrString(peer, zone, rapid.IntRange(1, 65535).Draw(t, "port"))
-		if len(xff) > 0 {
-			if rapid.Bool().Draw(t, "xffsplit") && len(xff) > 1 {
-				// only the first header line is consulted by Header.Get; keep
-				// the semantic simple: one line
+			rt := &countingRT{}
+			p := &proxy.HTTPProxy{
+				Config:    config.Proxy{},
+				Transport: rt,
+				Lookup:    func(*http.Request) *route.Target { return tg },
 			}
-			req.Header.Set("X-Forwarded-For", strings.Join(xff, ","))
-		}
-		rec := httptest.NewRecorder()
-		p.ServeHTTP(rec, req)
-		hx.Eval()
-		want := refDecision(kind, items, addrs)
-		hits := atomic.LoadInt64(&rt.hits)
-		desc := fmt.Sprintf("opts=%v remote=%s xff=%q", opts, req.RemoteAddr, strings.Join(xff, ","))
-		switch {
-		case rec.Code == 403:
-			if hits != 0 {
-				t.Fatalf("403 sent but the upstream was contacted %d times\n%s", hits, desc)
+			req := httptest.NewRequest("GET", "http://example.com/x", nil)
+			req.RemoteAddr = remoteAddrString(peer, zone, port)
+			if len(xff) > 0 {
+				req.Header.Set("X-Forwarded-For", strings.Join(xff, ","))
 			}
-			if want == mustAdmit {
-				t.Fatalf("request denied although every address is admitted by the (well-formed) rule\n%s", desc)
+			rec := httptest.NewRecorder()
+			p.ServeHTTP(rec, req)
+			hx.Eval()
+			want := refDecision(kind, items, addrs)
+			hits := atomic.LoadInt64(&rt.hits)
+			desc = fmt.Sprintf("opts=%v remote=%s xff=%q (request %d of %d on this target)", opts, req.RemoteAddr, strings.Join(xff, ","), round+1, rounds)
+			lastCode = rec.Code
+			switch {
+			case rec.Code == 403:
+				if hits != 0 {
+					t.Fatalf("403 sent but the upstream was contacted %d times\n%s", hits, desc)
+				}
+				if want == mustAdmit {
+					t.Fatalf("request denied although every address is admitted by the (well-formed) rule\n%s", desc)
+				}
+				hx.Class("http:denied")
+			case rec.Code == 200:
+				if hits != 1 {
+					t.Fatalf("200 but upstream hits = %d\n%s", hits, desc)
+				}
+				if want == mustDeny {
+					t.Fatalf("request forwarded although the access rule does not admit it\n%s", desc)
+				}
+				hx.Class("http:admitted")
+			default:
+				t.Fatalf("unexpected status %d\n%s", rec.Code, desc)
 			}
-			hx.Class("http:denied")
-		case rec.Code == 200:
-			if hits != 1 {
-				t.Fatalf("200 but upstream hits = %d\n%s", hits, desc)
+			if round > 0 {
+				hx.Class("http:later-request-same-peer-other-xff")
 			}
-			if want == mustDeny {
-				t.Fatalf("request forwarded although the access rule does not admit it\n%s", desc)
-			}
-			hx.Class("http:admitted")
-		default:
-			t.Fatalf("unexpected status %d\n%s", rec.Code, desc)
 		}
 		malformedPresent := false
 		for _, it := range items {
@@ -345,7 +373,7 @@ func TestC12AccessRulesHTTP(t *testing.T) {
 			hx.Class("allow-and-deny-together")
 		}
 		if hx.WantSample("http") && single {
-			hx.Sample("http", map[string]any{"case": desc, "status": rec.Code})
+			hx.Sample("http", map[string]any{"case": desc, "status": lastCode})
 		}
 	})
 }
@@ -545,7 +573,7 @@ func TestC12Auth(t *testing.T) {
 		p := &proxy.HTTPProxy{Transport: rt, Lookup: func(*http.Request) *route.Target { return tg }, AuthSchemes: schemes}
 		req := httptest.NewRequest("GET", "http://example.com/x", nil)
 		req.RemoteAddr = "10.1.1.1:999"
-		user, pass, credKind := "", "", rapid.SampledFrom([]string{"right", "right", "wrongpw", "unknownuser", "none", "malformed", "emptypw"}).Draw(t, "cred")
+		user, pass, credKind := "", "", rapid.SampledFrom([]string{"right", "right", "wrongpw", "shiftedsplit", "unknownuser", "none", "malformed", "emptypw", "derivedpw"}).Draw(t, "cred")
 		names := []string{"alice", "bob", "üser", "colon"}
 		switch credKind {
 		case "right":
@@ -568,6 +596,18 @@ func TestC12Auth(t *testing.T) {
 		case "emptypw":
 			user = "alice"
 			req.SetBasicAuth(user, "")
+		case "shiftedsplit":
+			// the same characters as a valid pair, cut at another place
+			u := rapid.SampledFrom(names).Draw(t, "user")
+			cat := u + users[u]
+			k := rapid.IntRange(0, len(cat)).Draw(t, "cut")
+			user, pass = cat[:k], cat[k:]
+			req.SetBasicAuth(user, pass)
+		case "derivedpw":
+			user = rapid.SampledFrom(names).Draw(t, "user")
+			pw := users[user]
+			pass = rapid.SampledFrom([]string{pw[:len(pw)-1], pw[1:], strings.ToUpper(pw), pw + pw, user, user + ":" + pw, ":" + pw}).Draw(t, "derived")
+			req.SetBasicAuth(user, pass)
 		case "malformed":
 			req.Header.Set("Authorization", rapid.SampledFrom([]string{"Basic", "Basic !!!", "Bearer abc", "Basic " + base64.StdEncoding.EncodeToString([]byte("nocolon")), "basic"}).Draw(t, "hdr"))
 		}
@@ -575,9 +615,19 @@ func TestC12Auth(t *testing.T) {
 		p.ServeHTTP(rec, req)
 		hx.Eval()
 		exists := scheme == "basic1" || scheme == "basic2"
-		accept := scheme == "" || (exists && credKind == "right")
+		// reference: the pair the Authorization header denotes (cut at the first
+		// colon) is in the file
+		valid := false
+		if u, pw, ok := req.BasicAuth(); ok {
+			want, known := users[u]
+			valid = known && want == pw
+		}
+		if credKind == "right" && !valid {
+			t.Fatalf("harness: a right pair is not valid by the reference")
+		}
+		accept := scheme == "" || (exists && valid)
 		hits := atomic.LoadInt64(&rt.hits)
-		desc := fmt.Sprintf("auth=%q cred=%s user=%q", scheme, credKind, user)
+		desc := fmt.Sprintf("auth=%q cred=%s user=%q password=%q", scheme, credKind, user, pass)
 		if accept {
 			if rec.Code != 200 || hits != 1 {
 				t.Fatalf("valid credentials rejected: status %d hits %d\n%s", rec.Code, hits, desc)
@@ -706,7 +756,6 @@ func TestC12AuthFileHistory(t *testing.T) {
 		}
 	})
 }
-
 
 type helloSink struct{ w bytes.Buffer }
 
